@@ -205,6 +205,15 @@ func frames() {
 	// type carrying the same id
 	first := uint8(1 + vrt.ChooseFree(8, "type"))
 	tg := targets[vrt.ChooseFree(len(targets), "target")]
+	// the object's statistics / tracing modes wrap the caller's channel
+	switch vrt.ChooseFree(3, "object-mode") {
+	case 1:
+		p.Send(net.Call, w.ServiceID, 1, 81, p.NextID(), []byte{1})
+		vrt.Quiesce()
+	case 2:
+		p.Send(net.Call, w.ServiceID, 1, 85, p.NextID(), []byte{1})
+		vrt.Quiesce()
+	}
 	second := uint8(0)
 	if first == net.Call {
 		second = uint8(vrt.ChooseFree(9, "second-type"))
@@ -297,5 +306,5 @@ func init() {
 	reg.Register(&reg.Scenario{Property: "C04", Name: "cancel-noarg", Body: cancel(102, "noarg", nil, 42), Quick: 2, Thorough: 3,
 		Doc: "Call(noarg()) with a cancel channel || close(cancel)", MustFlag: []string{"cancelled"}})
 	reg.Register(&reg.Scenario{Property: "C04", Name: "message-types", Body: frames, Quick: 1, Thorough: 2,
-		Doc: "authenticated raw peer: 8 message types x 5 targets x (alone | followed by any of 8 types with the same id)"})
+		Doc: "authenticated raw peer: 8 message types x 5 targets x (alone | followed by any of 8 types with the same id) x object mode {plain, statistics, tracing}"})
 }
